@@ -60,7 +60,7 @@ def run(ck):
     ck.assumptions = ["the qhasm assembly nfl_crypto_stream_salsa20_amd64_xmm6.s is compared with, never derived from, the Gallina Salsa20 (specification vectors proved as Examples)",
                       "one process per history (static generator state); nfl::randombytes is a fixed-key stub counting calls",
                       "buffers at rotating alignments inside canary-filled regions; whole region compared"]
-    vf.run_deps(ck, ['C18'])
+    vf.run_deps(ck, ['C18', 'C19'])
     return ck.finish(trusted=["coqc 8.16.1 kernel", "extraction + driver.ml", "h_prng.cpp"], extra_cov={"partial": "assembly compared on %d requests / %d bytes, not proved" % (nreq, ck.cov["bytes"])})
 
 def replay(ck, rec):
